@@ -272,3 +272,108 @@ def target_mrq_two_elements():
 
 def targets():
     return [target_nnls_kernel(), target_normalize(), target_lm_peaks(), target_mrq(), target_mrq_two_elements()]
+
+
+# ------------------------------------------------------------------------------------------------ peak selection (data flow)
+def target_peak_indices():
+    """DRTResult._get_peak_indices(threshold, gammas): the candidates come from find_peaks on the zero-padded gammas with NO
+    absolute criterion, and a candidate i is kept exactly when gammas[i] / max(gammas) > threshold and gammas[i] > 0 -- a
+    relative test, so the reported peaks do not change when the impedance (hence gamma) is scaled."""
+    from . import dataflow as DF
+    from .dataflow import T
+    RES = "analysis/drt/result"
+    qual = "DRTResult._get_peak_indices"
+
+    def run(sess: Session):
+        n_paths = 0
+
+        def once():
+            calls = []
+
+            class G:
+                size, dtype = 5, "float64"
+
+                def __getitem__(self, i):
+                    if isinstance(i, int):
+                        return T.var(f"g[{i}]")
+                    raise O.Unsupported("gammas indexed by something else than one candidate index")
+
+            class Pad:
+                def __init__(self, n):
+                    self.n, self.stored = n, None
+
+                def __setitem__(self, k, v):
+                    self.stored = (k, v)
+
+            class Idx(list):
+                def any(self):
+                    return True
+
+                def __isub__(self, k):
+                    return Idx([i - k for i in self])
+            g = G()
+
+            def find_peaks(x, *a, **kw):
+                calls.append((x, a, kw))
+                return (Idx([1, 3, 4]),)
+
+            def max_(x):
+                return T.var("max_g") if x is g else max(x)
+            thr = T.var("threshold")
+            ns = {"_is_floating": lambda x: True, "zeros": lambda n, dtype=None: Pad(n), "array": lambda x, dtype=None: list(x), "int64": "int64",
+                  "max": max_, "list": list, "filter": filter, "find_peaks": find_peaks}
+            O.load(RES, [qual], ns)
+            err, out = None, None
+            try:
+                out = ns["_get_peak_indices"](None, thr, g)
+            except ValueError as ex:
+                err = ("refused", ex)
+            except (O.Unsupported, AttributeError, TypeError, IndexError, KeyError) as ex:
+                err = ex
+            return calls, out, err, g
+        for log, (calls, out, err, g), facts in DF.explore(once, max_paths=300):
+            n_paths += 1
+            asked = {w.key: v for w, v in log}
+            tag = "[" + ",".join(f"{w}={'T' if v else 'F'}" for w, v in log) + "]"
+            if isinstance(err, tuple):
+                sess.check("post", [], z3.BoolVal(not calls and (asked.get("ge(threshold, lit:0.0)") is False or asked.get("le(threshold, lit:1.0)") is False)), 0, label=f"refused up front only for a threshold outside [0, 1]{tag}")
+                continue
+            ok_call = len(calls) == 1 and not calls[0][1] and not calls[0][2]
+            sess.check("post", [], z3.BoolVal(ok_call), 0, label="find_peaks(padded gammas) is called once, without height/prominence/any absolute criterion")
+            if ok_call:
+                pad = calls[0][0]
+                sess.check("post", [], z3.BoolVal(getattr(pad, "n", None) == 7 and pad.stored is not None and pad.stored[1] is g and pad.stored[0] == slice(1, -1, None)), 0, label="candidates are sought in [0, gammas..., 0]")
+            if err is not None:
+                sess.unsupported(f"_get_peak_indices left the modelled subset: {type(err).__name__}: {err}")
+                continue
+            in_range = asked.get("le(lit:0.0, threshold)", True) and asked.get("le(threshold, lit:1.0)", True)
+            if out is None:
+                continue
+            if asked.get("eq(max_g, lit:0.0)") is True:
+                sess.check("post", [], z3.BoolVal(list(out) == []), 0, label=f"no peaks when max(gammas) == 0{tag}")
+                continue
+            want = []
+            for i in (0, 2, 3):
+                rel = asked.get(f"gt(div/2(g[{i}], max_g), threshold)")
+                pos = asked.get(f"gt(g[{i}], lit:0.0)")
+                if rel is None:
+                    sess.check("post", [], z3.BoolVal(False), 0, label=f"candidate {i} is tested with gammas[i] / max(gammas) > threshold{tag}")
+                    want = None
+                    break
+                if rel and pos is None:
+                    sess.check("post", [], z3.BoolVal(False), 0, label=f"candidate {i} is tested with gammas[i] > 0{tag}")
+                    want = None
+                    break
+                if rel and pos:
+                    want.append(i)
+            if want is not None:
+                sess.check("post", [], z3.BoolVal(list(out) == want), 0, label=f"kept = candidates (shifted back by the padding) passing the relative test{tag}")
+        sess.check("cover", [], z3.BoolVal(n_paths >= 20), 0, label=f"paths={n_paths}")
+    return (f"{RES}:{qual}", RES, qual, run)
+
+
+_targets_without_peaks = targets
+
+
+def targets():      # noqa: F811
+    return _targets_without_peaks() + [target_peak_indices()]
